@@ -12,7 +12,9 @@ for d in sorted(glob.glob(os.path.join(ROOT, "seeded", "*"))):
     desc = " ".join(m.get("description", "").split())[:230].replace("|", "/")
     tier = r.get("detected_by")
     how = ""
-    if tier:
+    if r.get("neutralised"):
+        tier, how = "n/a", "no longer a breaking change on the current tree (its own demonstration passes): a later fix in /repo closed the hole it relied on"
+    elif tier:
         if tier in r:
             rp = r[tier].get("replay", {})
             how = f"{rp.get('kind')} `{rp.get('clause')}`" + ("" if r.get("concrete_input") else " (no-failing-input-found)")
